@@ -37,6 +37,10 @@ def repo_facts():
     s = ast.unparse(snap)
     i_gather = _pos(s, 'await asyncio.gather(*(_worker() for _ in range(self._concurrent)))')
     i_prod = _pos(s, 'await chunk_producer', i_gather)
+    # the producer thread's outcome is collected on EVERY path (its failure - a source that cannot be read - fails the command)
+    tries = [n for n in ast.walk(snap) if isinstance(n, ast.Try) and 'asyncio.gather(*(_worker()' in ast.unparse(n.body)]
+    assert len(tries) == 1 and [ast.unparse(x) for x in tries[0].finalbody] == ['await chunk_producer'], 'chunk producer must be awaited in the finally of the workers\' gather'
+    assert all(isinstance(h.body[-1], ast.Raise) and h.body[-1].exc is None for h in tries[0].handlers), 'worker failures must propagate'
     i_body = _pos(s, 'serialized_snapshot = self._encrypt_snapshot_body(snapshot_body)', i_prod)
     i_upl = _pos(s, 'await self._upload_data(location, serialized_snapshot)', i_body)
     assert s.count('self._upload_data(') == 1
@@ -46,6 +50,7 @@ def repo_facts():
     k_upl = max(i for i, t in enumerate(tops) if t.startswith('await self._upload_data(location, serialized_snapshot)'))
     assert k_with < k_upl, 'snapshot object must be uploaded after all workers have finished'
     out.append('Definition fact_snapshot_object_uploaded_last : bool := true.')
+    out.append('Definition fact_producer_outcome_collected_on_every_path : bool := true.')
     assert "snapshot_body = {'chunks': list(chunks_table), 'data': snapshot_data}" in s
     out.append('Definition fact_snapshot_table_is_chunk_table : bool := true.')
 
